@@ -66,10 +66,10 @@ def mpo_dense(H):
 class Context:
     """Sites of a chain, dense reference operators and a seeded random state (dense and as MPS)."""
 
-    def __init__(self, chain, L, seed):
+    def __init__(self, chain, L, seed, cell=None):
         import tenpy.linalg.np_conserved as npc
         from tenpy.networks.mps import MPS
-        self.cell = make_cell(chain)
+        self.cell = cell or make_cell(chain)
         self.L = L
         self.sites = sites = [self.cell[i % len(self.cell)] for i in range(L)]
         self.Id = [np.eye(s.dim) for s in sites]
@@ -123,7 +123,13 @@ def check_reference(case):
             out.append(('reference:CAR:{c,c}', '%s: {%s_%d, %s_%d} != 0' % (case, a, i, b, j)))
         if not close(A @ Bd + Bd @ A, one if (a, i) == (b, j) else 0 * one):
             out.append(('reference:CAR:{c,cd}', '%s: {%s_%d, %s_%d^dagger} != delta' % (case, a, i, b, j)))
-    # a single fermionic operator applied to the MPS: the JW string comes from the charges of the bond
+    return out + [('reference:' + k, '%s: %s' % (case, m)) for k, m in apply_local_ops(cx)]
+
+
+def apply_local_ops(cx):
+    """A single fermionic operator applied to the MPS (the JW string comes from the charges of the bond, if the
+    sites claim to know the parity; otherwise a ValueError is documented) against the dense JW operator."""
+    out = []
     for i, s in enumerate(cx.sites):
         for n in fermionic_names(s):
             target = cx.G(n, i) @ cx.vec
@@ -134,10 +140,10 @@ def check_reference(case):
                         warnings.simplefilter('ignore')
                         p2.apply_local_op(i, n)
                     if not close(cx.psi_vec(p2), target):
-                        out.append(('reference:apply_local_op', '%s: %s_%d|psi> differs from the dense result' % (case, n, i)))
+                        out.append(('apply_local_op', '%s_%d|psi> differs from the dense result' % (n, i)))
                 except ValueError as e:
                     if cx.has_c2JW:
-                        out.append(('reference:apply_local_op:exception', '%s: %s_%d: %s' % (case, n, i, e)))
+                        out.append(('apply_local_op:exception', '%s_%d: %s' % (n, i, e)))
     return out
 
 
